@@ -22,4 +22,10 @@ theorem rot_to_matrix_eq {K : Type} [CommRing K] (q : Q K) :
     | rfl
     | (simp only [rot_to_matrix, Q.toMat, two]; congr 1 <;> ring)
 
+/-- `Rotation.inv`: multiplying the stored quaternion with the sign vector of the source is the conjugate -/
+theorem rot_inv_eq {K : Type} [CommRing K] (q : Q K) : rot_inv q.a q.b q.c q.w = Q.conj q := by
+  first
+    | rfl
+    | (simp only [rot_inv, Q.conj]; congr 1 <;> ring)
+
 end M.SrcL
